@@ -45,7 +45,7 @@ ASSUMPTIONS = [
     'dialogue harness: the checking thread waits (bounded wall clock, expiry = inconclusive) until its own select() sees the kernel state the peer action '
     'produces, then ticks a bounded number of times; verdicts are on the resulting streams only',
 ]
-REQUIRED = ['descriptor_registered_by_number', 'descriptor_number_zero_registered', 'intfd_control_events_seen', 'change_inside_select_call', 'inselect_control_event_seen', 'iter_select', 'iter_poll', 'iter_epoll', 'reader_ready_emitted', 'writer_ready_emitted', 'registered_not_ready_silent',
+REQUIRED = ['descriptor_registered_by_number', 'descriptor_number_zero_registered', 'closed_object_number_reused_by_new_registration', 'intfd_control_events_seen', 'change_inside_select_call', 'inselect_control_event_seen', 'iter_select', 'iter_poll', 'iter_epoll', 'reader_ready_emitted', 'writer_ready_emitted', 'registered_not_ready_silent',
             'ready_not_registered_silent', 'remove_one_role_other_stays', 'readd_after_discard', 'owner_changed_after_discard',
             'send_buffer_full_not_writable', 'writable_again_after_drain', 'peer_closed_hup', 'disconnect_instead_of_write', 'half_close_read',
             'peer_reset', 'discard_then_close', 'close_then_discard', 'close_without_discard', 'fd_number_reused',
@@ -1470,6 +1470,108 @@ def intfd_cases(b):
                     pass
 
 
+def objreuse_cases(b):
+    """A registered socket OBJECT is closed without discard(); a NEW object that got the same descriptor number is registered by another
+    component.  The new registration is what the number means from then on: its readiness is reported, to its own target, and the dead
+    object gets no read/write events."""
+    import socket as _socket
+    import threading
+
+    from circuits import BaseComponent, handler
+    from circuits.core import pollers as P
+    from circuits.core.events import generate_events
+
+    for pname in ('Select', 'Poll', 'EPoll'):
+        for role in ('reader', 'writer'):
+            seen, excs = [], []
+
+            class Obs(BaseComponent):
+                @handler('_read', '_write', '_disconnect', '_error', channel='*', priority=10)
+                def _on(self, event, *args):
+                    seen.append((event.name, args[0] if args else None, tuple(event.channels)))
+
+                @handler('exception', channel='*')
+                def _on_exc(self, etype, evalue, tb, handler=None, fevent=None):
+                    excs.append(repr(evalue))
+
+            root = Obs()
+            poller = getattr(P, pname)().register(root)
+            sx = BaseComponent(channel='x').register(root)
+            sz = BaseComponent(channel='z').register(root)
+            while len(root):
+                root.flush()
+
+            def iterate():
+                root.fire(generate_events(threading.RLock(), 0), '*')
+                while len(root):
+                    root.flush()
+
+            a, a_peer = _socket.socketpair()
+            number = a.fileno()
+            if role == 'reader':
+                poller.addReader(sx, a)
+                a_peer.send(b'1')
+            else:
+                poller.addWriter(sx, a)
+            iterate()
+            del seen[:], excs[:]
+            a.close()                                   # closed, never discarded
+            nb, nb_peer = _socket.socketpair()
+            case = {'family': 'objreuse', 'poller': pname, 'role': role}
+            if nb.fileno() != number and nb_peer.fileno() != number:
+                b.inconclusive_because('the freed descriptor number was not handed to the next socket')
+                continue
+            if nb_peer.fileno() == number:
+                nb, nb_peer = nb_peer, nb
+            b.case(case, nontrivial=True)
+            b.reached('closed_object_number_reused_by_new_registration')
+            ev = '_read' if role == 'reader' else '_write'
+            if role == 'reader':
+                poller.addReader(sz, nb)
+                nb_peer.send(b'2')
+            else:
+                poller.addWriter(sz, nb)
+            served = 0
+            for _ in range(4):
+                n0 = len(seen)
+                iterate()
+                if any(n == ev and o is nb and ch == ('z',) for n, o, ch in seen[n0:]):
+                    served += 1
+            stale = [(n, ch) for n, o, ch in seen if o is a and n in ('_read', '_write')]
+            wrong = [(n, ch) for n, o, ch in seen if o is nb and ch != ('z',)]
+            clause = 'COMPLETE_READ' if role == 'reader' else 'COMPLETE_WRITE'
+            failed = False
+            if served < 3:
+                failed = True
+                b.fail(case, clause, {'poller': pname, 'note': 'a newly registered, ready object whose descriptor number had belonged to an object closed '
+                                      'without discard() was not reported', 'iterations_served': served, 'events': [(n, 'new' if o is nb else 'dead' if o is a else '?', ch) for n, o, ch in seen][:8],
+                                      'exceptions': excs[:2]}, dedup='objreuse')
+            if stale:
+                failed = True
+                b.fail(case, 'NO_EVENT_FOR_CLOSED', {'poller': pname, 'events_for_the_dead_object': stale[:4]}, dedup='objreuse')
+            if wrong:
+                failed = True
+                b.fail(case, 'ADDRESS', {'poller': pname, 'events_for_the_new_object_on_other_channels': wrong[:4]}, dedup='objreuse')
+            if excs:
+                failed = True
+                b.fail(case, 'POLLER_RAISED', {'poller': pname, 'exceptions': excs[:3]}, dedup='objreuse')
+            if not failed:
+                b.ok(clause)
+                b.ok('NO_EVENT_FOR_CLOSED')
+                b.ok('ADDRESS')
+            for so in (a_peer, nb, nb_peer):
+                try:
+                    so.close()
+                except OSError:
+                    pass
+            import os
+            for fd in (poller._ctrl_recv, poller._ctrl_send):
+                try:
+                    os.close(fd)
+                except OSError:
+                    pass
+
+
 def run_batch(spec):
     import circuits  # noqa: F401
     b = Batch(PROPERTY)
@@ -1478,6 +1580,7 @@ def run_batch(spec):
             evaluate_case(b, case)
         inselect_cases(b)
         intfd_cases(b)
+        objreuse_cases(b)
     elif spec['kind'] == 'random':
         rng = random.Random(spec['seed'])
         for _ in range(spec['n']):
